@@ -93,6 +93,10 @@ def run(ctx: Ctx):
                 tree = i > 0 and ast.unparse(blk[i - 1]) == f"dfs({w})" and any(ast.unparse(x) == f"parent[{w}] = {v}" for x in blk[:i])
             if args == {f"low[{v}]", f"discovery[{w}]"} and f"{w} in discovery" in at and atom_of(f"{w} != parent[{v}]") in at:
                 back = True
+        # every neighbour is looked at: a back edge anywhere in the list lowers low[v].  The scan has no way out but its end
+        exits = [n for n in ast.walk(loops[0]) if isinstance(n, (ast.Break, ast.Return)) or (isinstance(n, ast.Raise))]
+        exits = [n for n in exits if not any(isinstance(fn_, (ast.FunctionDef, ast.Lambda)) and any(n is y for y in ast.walk(fn_)) for fn_ in ast.walk(loops[0]) if fn_ is not loops[0])]
+        ctx.ob("C15-O5", "R12 NO-CARDINALITY-CUTOFF", d, "the neighbour scan of the DFS runs to the end of the list (no break / return inside it)", not exits, f"`{ast.unparse(exits[0])}` at line {exits[0].lineno}: a neighbour that is not looked at can be a back edge to an ancestor - without it low[{v}] stays too high and tree edges / vertices on the cycle are reported as bridges / cut vertices" if exits else "", node=exits[0] if exits else loops[0])
         ctx.ob("C15-O5", "R1 STATUS-GUARD", d, "tree edge: set parent, recurse, then low = min(own, child's low)", tree, "", node=d.node)
         ctx.ob("C15-O5", "R1 STATUS-GUARD", d, "back edge: low = min(own, target's discovery time), skipping exactly the DFS parent", back, "", node=d.node)
         if kind == "ap":
@@ -487,7 +491,13 @@ def _v_pagerank_max_diff_unbound(tree):
     M.replace_stmt(g, lambda st: isinstance(st, ast.Assign) and M.src_is(st.targets[0], "max_diff") and st in g.body, [])
 
 
+def _v_bridges_scan_stops_early(tree):
+    g = M.find_func(tree, "bridges.dfs")
+    M.insert(g, "low[v] = min(low[v], low[w])", "if len(discovery) == n:\n    break", after=True)
+
+
 VARIANTS = [
+    M.Variant("bridges stops scanning a neighbour list once every node is numbered (seed C15-T)", AR, _v_bridges_scan_stops_early, "C15-O5"),
     M.Variant("pagerank binds max_diff only inside the sweep loop: max_iter=0 raises where the Rust kernel answers MAX_ITER (original defect, ledger row 63)", PR, _v_pagerank_max_diff_unbound, "C15-G1"),
     M.Variant("pagerank_edges no longer forwards tol (seed C15-R)", PR, _v_pagerank_edges_drops_tol, "C15-G16"),
     M.Variant("louvain answers a complete graph with one community and modularity 0.0 (seed C15-Q)", CM, _v_louvain_complete_graph_shortcut, "C15-O3"),
